@@ -8,6 +8,8 @@ package xreq
 //@   immutable: p s closeQ
 //@
 //@ struct socket
+//@   close_token closeQ when closed
+//@   close_token sizeQ
 //@   lock Mutex level 20
 //@   guarded_by Mutex: closed recvQ sendQ sizeQ recvExpire sendExpire sendQLen recvQLen bestEffort
 //@   immutable: closeQ
@@ -70,3 +72,6 @@ package xreq
 //@   ghost was = s.closed at call:Lock#1
 //@   ensures was ==> result == protocol.ErrClosed
 //@   ensures !was ==> isnil(result) && s.closed && closed(s.closeQ)
+//@
+//@ func (*socket).RemovePipe
+//@   may_close p.closeQ caller
